@@ -210,6 +210,10 @@ class ExonCorrector:
 
             i = event.read_region[1] + 1
 
+        # a terminal exon correction may move the read start/end past introns collected earlier (e.g. a micro-intron restored
+        # inside a first exon that is then dropped as fake): only introns inside the corrected region remain
+        new_introns = [intron for intron in new_introns
+                       if corrected_read_region[0] < intron[0] and intron[1] < corrected_read_region[1]]
         return corrected_read_region, new_introns
 
 
